@@ -64,5 +64,62 @@ func VerifC03History(h *verifh.H) {
 			}
 		}
 	}
+	// several start entities in one request (what POST /query startingEntities and the
+	// multi-source joins do): the answer is the union of the single-start answers, also paged
+	// (a start entity that was never stored simply has no relations)
+	known := starts
+	triples := func(rs []RelatedEntityResult) []string {
+		var out []string
+		for _, r := range rs {
+			id := ""
+			if r.RelatedEntity != nil {
+				id = r.RelatedEntity.ID
+			}
+			out = append(out, r.StartURI+"|"+r.PredicateURI+"|"+id)
+		}
+		return vSorted(out)
+	}
+	if len(known) >= 2 && h.Param("multiStart", 1) == 1 {
+		for _, pred := range preds {
+			for inv := 0; inv < 2; inv++ {
+				var want []string
+				for _, start := range known {
+					for _, pr := range g.related(start, pred, inv == 1, nil) {
+						want = append(want, start+"|"+pr)
+					}
+				}
+				want = vSorted(want)
+				res, err := hub.Store.GetManyRelatedEntitiesBatch(known, pred, inv == 1, nil, 0, true)
+				if err != nil {
+					continue // predicate never stored
+				}
+				q := " :: starts=" + vJoin(known) + " pred=" + pred + " inverse=" + vB(inv == 1)
+				got := triples(res.Relations)
+				multiKnown := false
+				for _, start := range known {
+					multiKnown = multiKnown || g.multiPredSource(start, nil)
+				}
+				if inv == 1 && pred == "*" {
+					h.Known("C03-incoming-tombstone", multiKnown)
+				}
+				h.Assert(vJoin(got) == vJoin(want), "a query with several start entities equals the union of the single-start answers"+q+" got="+vJoin(got)+" want="+vJoin(want))
+				for _, lim := range []int{1, 2} {
+					pres, err := hub.Store.GetManyRelatedEntitiesBatch(known, pred, inv == 1, nil, lim, true)
+					h.Assert(err == nil, "paged query")
+					all := append([]RelatedEntityResult{}, pres.Relations...)
+					cont := pres.Cont
+					for page := 0; len(cont) > 0 && page < 12; page++ {
+						next, err := hub.Store.GetManyRelatedEntitiesAtTime(cont, lim, true)
+						h.Assert(err == nil, "continuation accepted")
+						all = append(all, next.Relations...)
+						cont = next.Cont
+					}
+					h.Assert(len(cont) == 0, "paging terminates")
+					paged := triples(all)
+					h.Assert(vJoin(paged) == vJoin(got), "paging a query with several start entities returns the same set as the single call"+q+" limit="+itoa(lim)+" paged="+vJoin(paged)+" single="+vJoin(got))
+				}
+			}
+		}
+	}
 	h.Observe("seq", g.seq)
 }
